@@ -551,7 +551,30 @@ Proof.
     unfold set_shim, set_buf; cbn [w_buf]; rewrite mlen_app; reflexivity.
 Qed.
 
-Lemma compose_opt_spec c udp opts : WSpec c (compose_opt c udp opts).
+(* the three header patches of the OPT closure (udp size, ext rcode + version, DO) *)
+Lemma opt_patches c w w2 x y z :
+  TBound w2 -> SInv c w2 -> Ext c (mlen (w_buf w)) w w2 -> mlen (w_buf w2) = mlen (w_buf w) + 11 ->
+  let w3 := set_buf w2 (patch16 (mlen (w_buf w) + 7) z
+                         (patch16 (mlen (w_buf w) + 5) y (patch16 (mlen (w_buf w) + 3) x (w_buf w2)))) in
+  Ext c (mlen (w_buf w)) w w3 /\ TBound w3 /\ SInv c w3 /\ mlen (w_buf w3) = mlen (w_buf w2).
+Proof.
+  intros TB2 SI2 E02 L2.
+  destruct (patch_spec c w w2 (mlen (w_buf w) + 3) x TB2 SI2 E02) as (Ea & TBa & SIa); [lia|lia|].
+  set (wa := set_buf w2 (patch16 (mlen (w_buf w) + 3) x (w_buf w2))) in *.
+  assert (La : mlen (w_buf wa) = mlen (w_buf w2)) by (subst wa; unfold set_buf; cbn [w_buf]; apply patch16_mlen; lia).
+  destruct (patch_spec c w wa (mlen (w_buf w) + 5) y TBa SIa Ea) as (Eb & TBb & SIb); [lia|lia|].
+  set (wb := set_buf wa (patch16 (mlen (w_buf w) + 5) y (w_buf wa))) in *.
+  assert (Lb : mlen (w_buf wb) = mlen (w_buf w2)) by (subst wb; unfold set_buf; cbn [w_buf]; rewrite patch16_mlen; lia).
+  destruct (patch_spec c w wb (mlen (w_buf w) + 7) z TBb SIb Eb) as (Ec & TBc & SIc); [lia|lia|].
+  set (wc := set_buf wb (patch16 (mlen (w_buf w) + 7) z (w_buf wb))) in *.
+  assert (Lc : mlen (w_buf wc) = mlen (w_buf w2)) by (subst wc; unfold set_buf; cbn [w_buf]; rewrite patch16_mlen; lia).
+  cbv zeta.
+  replace (set_buf w2 (patch16 (mlen (w_buf w) + 7) z (patch16 (mlen (w_buf w) + 5) y (patch16 (mlen (w_buf w) + 3) x (w_buf w2))))) with wc
+    by (subst wc wb wa; unfold set_buf; cbn [w_buf w_shim w_static w_tree w_hash]; reflexivity).
+  auto.
+Qed.
+
+Lemma compose_opt_spec c oh opts : WSpec c (compose_opt c oh opts).
 Proof.
   intros w TB SI. unfold compose_opt.
   pose proof (append_slice_spec c opt_header_default w TB SI) as H1.
@@ -562,11 +585,9 @@ Proof.
   destruct H2 as (E2 & TB2 & SI2). pose proof (append_slice_mlen _ _ _ _ EB) as L2.
   assert (E02 : Ext c (mlen (w_buf w)) w w2) by (eapply Ext_trans; eauto; lia).
   change (mlen opt_header_default) with 9 in L1. change (mlen [0; 0]) with 2 in L2.
-  destruct (patch_spec c w w2 (mlen (w_buf w) + 3) udp TB2 SI2 E02) as (E3 & TB3 & SI3); [lia|lia|].
-  set (w3 := set_buf w2 (patch16 (mlen (w_buf w) + 3) udp (w_buf w2))) in *.
-  assert (L3 : mlen (w_buf w3) = mlen (w_buf w2)).
-  { subst w3. unfold set_buf; cbn [w_buf]. apply patch16_mlen. lia. }
-  (* truncating w4 back to pos = |w2| = |w3| gives w3 *)
+  destruct (opt_patches c w w2 (oh_udp oh) (oh_ext oh * 256 + oh_ver oh) (if oh_do oh then 32768 else 0) TB2 SI2 E02 ltac:(lia))
+    as (E3 & TB3 & SI3 & L3).
+  match goal with |- context [compose_opts c opts ?x] => set (w3 := x) in * end.
   pose proof (compose_opts_spec c opts w3 TB3 SI3) as H4.
   destruct (compose_opts c opts w3) as [w4|w4| |]; auto.
   - destruct H4 as (E4 & TB4 & SI4). pose proof (Ext_mlen _ _ _ _ E4) as Hm.
@@ -684,22 +705,33 @@ Proof.
   lia.
 Qed.
 
-(* a failed push leaves the whole builder state as it was *)
+Lemma restore_flag : opt_restores_rcode_on_err = true.
+Proof. reflexivity. Qed.
+
+Lemma set_hdr_eta s : set_hdr s (b_hdr s) = s.
+Proof. destruct s; reflexivity. Qed.
+
+(* a failed push leaves the whole builder state as it was (for the OPT push:
+   because AdditionalBuilder::opt puts the header RCODE back, restore_flag) *)
 Lemma step_err_unchanged c s o s' e :
   BW c s -> step c s o = (s', RErr e) -> s' = s.
 Proof.
-  intros HB H. destruct o as [q|r|udp opts| | | |l]; cbn [step] in H.
+  intros HB H. unfold step in H. destruct o as [q|r|oh opts| | | |l|h]; cbn [step_gen] in H.
   - destruct (b_sec s =? 0); [|discriminate].
     destruct (mb_push_cases c s (compose_question c q) HB (compose_question_spec c q)) as [(w' & _ & E & _)|[(e' & E)|(x & E & D)]];
       rewrite E in H; try discriminate; injection H as <- _; reflexivity || (rewrite <- H in D; discriminate).
   - destruct (b_sec s =? 0); [discriminate|].
     destruct (mb_push_cases c s (compose_record c r) HB (compose_record_spec c r)) as [(w' & _ & E & _)|[(e' & E)|(x & E & D)]];
       rewrite E in H; try discriminate; injection H as <- _; reflexivity || (rewrite <- H in D; discriminate).
-  - destruct (b_sec s =? 3); [|discriminate].
-    destruct (mb_push_cases c s (compose_opt c udp opts) HB (compose_opt_spec c udp opts)) as [(w' & _ & E & _)|[(e' & E)|(x & E & D)]];
-      rewrite E in H; try discriminate; injection H as <- _; reflexivity || (rewrite <- H in D; discriminate).
+  - destruct (b_sec s =? 3); [|discriminate]. rewrite restore_flag in H.
+    destruct (mb_push_cases c s (compose_opt c oh opts) HB (compose_opt_spec c oh opts)) as [(w' & _ & E & _)|[(e' & E)|(x & E & D)]];
+      rewrite E in H; cbn [fst snd] in H.
+    + injection H as _ X. discriminate.
+    + injection H as <- _. apply set_hdr_eta.
+    + injection H as _ X. rewrite X in D. discriminate.
   - destruct (b_sec s <? 3); discriminate.
   - destruct (b_sec s =? 0); [discriminate|]. destruct (rewind c s); discriminate.
   - destruct (rewind c s); discriminate.
+  - discriminate.
   - discriminate.
 Qed.
